@@ -93,6 +93,9 @@ def gen_ops(rng, tr, n):
 
 def generate(rng):
     scn = _generate(rng)
+    if scn.get('transport') in ('pty', 'fd') and rng.random() < 0.08 and not any(o['op'] == 'aexpect_eof' for o in scn['ops']):
+        # asyncio.run(child.expect(..., async_=True)) once, then ordinary use: the loop is gone when the object is closed
+        scn['ops'].insert(rng.randint(0, len(scn['ops'])), {'op': 'aexpect_to'})
     if scn.get('transport') != 'popen' and rng.random() < 0.08:
         scn['intr'] = sorted([rng.randint(1, 8), rng.choice([1, 50, 5000, 60000])] for _ in range(rng.randint(1, 2)))
     return scn
@@ -407,6 +410,25 @@ def run(scn, prop=None):
                             await asyncio.sleep(0)      # let the transport finish closing
                         return rr
                     res['ret'] = state['loop'].run_until_complete(aop())
+                elif o == 'aexpect_to':
+                    # one awaited call under an event loop of its own that is closed afterwards -- what asyncio.run(...) does;
+                    # the object lives on and is closed / dropped later, outside any loop
+                    import asyncio
+                    from . import aioloop
+                    aioloop.install()
+                    if state.get('loop') is not None or state.get('closed_loops'):
+                        raise HarnessError('one event loop per scenario (a second one is the known limitation of the asyncio path)')
+                    lp_ = aioloop.SimLoop()
+                    lp_.set_exception_handler(lambda lp, ctx: None)
+                    state.setdefault('closed_loops', []).append(lp_)
+
+                    async def aop2():
+                        return await child.expect([TIMEOUT, EOF], timeout=0.01, async_=True)
+                    try:
+                        res['ret'] = lp_.run_until_complete(aop2())
+                    finally:
+                        lp_.close()
+                    w.probe('event_loop_closed_while_the_object_lives_on')
                 elif o == 'send':
                     res['ret'] = child.send(b'INTRUDER' if child.encoding is None else u'INTRUDER')
                 elif o == 'sendline':
@@ -495,7 +517,7 @@ def run(scn, prop=None):
                   % (o, sk[1], sk[0], sk[2]), site='kill@%s' % (sk[2][1] if sk[2] else None), **det)
             if out:
                 break
-            if state['child'] is None and state.get('loop') is not None:
+            if state['child'] is None and (state.get('loop') is not None or state.get('closed_loops')):
                 break      # the event loop's transport still refers to the object: it is not garbage yet
             if state['child'] is None:
                 if state.get('freed_on_del') is False and state.get('loop') is None:
@@ -621,6 +643,8 @@ def run(scn, prop=None):
                 if getattr(main_of, 'open', False) and not isinstance(e, pexpect.ExceptionPexpect):
                     V('C10.fd_leak', 'final close() raised %s and left the descriptor open' % type(e).__name__,
                       ops=[x['op'] for x in scn['ops']], exc=repr(e)[:200])
+        for lp_ in state.get('closed_loops', []):
+            lp_.detach_all()
         if state.get('loop') is not None:
             state['loop'].detach_all()
             try:
